@@ -108,6 +108,12 @@ def case_basis(dim, shape, x_range, dtype):
     want = ref @ dense.ravel().astype(np.float64)
     if np.abs(sol.ravel() - want).max() > tol * np.abs(dense).sum():
         fails.append(Fail(f"{tag}:dense", "dense right-hand side: result differs from direct summation", shape=shape, dtype=dtype))
+    # the same solve through a POSITIONAL call in the documented order (solution, right-hand side)
+    sol_p = np.full(shape, np.nan, dtype=dtype)
+    solver.solve(sol_p, dense.copy())
+    trans += 1
+    if not np.array_equal(sol_p, sol):
+        fails.append(Fail(f"{tag}:positional-call", "solve(solution, rhs) called positionally differs from the keyword call", shape=shape, dtype=dtype))
     if sol.dtype != dtype:
         fails.append(Fail(f"{tag}:dtype", "solution dtype changed"))
     return CaseResult(fails=fails, states=n, transitions=trans, traces=trans,
